@@ -169,7 +169,6 @@ def showSyms (t : List (List UInt8 × Nat)) : String :=
   if t.isEmpty then "-" else ",".intercalate (t.map (fun e => bytesToString e.1 ++ "=" ++ natHex e.2))
 
 def showElf (r : ElfReadImpl.Loaded) : String :=
-  if r.ret == -99 then "skip-large" else
   if r.ret < 0 then "ret=" ++ toString r.ret ++ " type=elf low=ffffffff high=0 end=l cpu=- nz=- syms=-" else
   -- file_read(): set_cpu_by_type(cpu_type) copies the CPU's name and default endian
   let cpu := NakenVerif.Generated.cpuList.find? (fun c => c.type == r.cpuType)
@@ -192,7 +191,7 @@ def handleRd (args : List String) : String :=
     else if fmt == "wdc" then
       let r := WdcImpl.read bytes
       showLoaded "wdc" { ret := r.ret, writes := r.writes, low := r.low, high := r.high }
-    else if fmt == "elf" then showElf (ElfReadImpl.read 1048576 bytes)
+    else if fmt == "elf" then showElf (ElfReadImpl.read bytes)
     else "not-modelled"
   | _ => "bad-op"
 end Driver.FileIO
